@@ -143,7 +143,8 @@ func rulesC06(c *Ctx) {
 								return boolTri(init)
 							}
 						}
-						if h.IsField(e, unp) {
+						// (a local that holds a copy of the field is the field)
+						if h.IsField(h.valueOf(e), unp) {
 							return boolTri(newp)
 						}
 						// the table is about requests: the request handed to handle exists (a defensive nil test of a parameter
@@ -157,9 +158,9 @@ func rulesC06(c *Ctx) {
 						}
 						if x, y, op, ok := binaryCmp(e); ok && (op == token.EQL || op == token.NEQ) {
 							var k ast.Expr
-							if h.IsField(x, methodF) {
+							if h.IsField(h.valueOf(x), methodF) {
 								k = y
-							} else if h.IsField(y, methodF) {
+							} else if h.IsField(h.valueOf(y), methodF) {
 								k = x
 							}
 							if k != nil {
